@@ -1,7 +1,7 @@
 """C14: OverlappingFieldsCanBeMergedRule accepts exactly what FieldsInSetCanMerge accepts."""
 from __future__ import annotations
 
-from vf import assume, fixlen, forked, verdict
+from vf import assume, concrete, fixlen, forked, verdict
 
 from graphql import build_schema, parse, validate
 from graphql.language.ast import (
@@ -184,24 +184,31 @@ def usable(ftext: str, on_type: str) -> bool:
     return name in SCHEMA.get_type(on_type).fields
 
 
-def merge_agreement(i1: int, i2: int, i3: int, o: int, *, k: int, quick: bool) -> bool:
+def merge_agreement(i1: int, i2: int, i3: int, *, k: int, quick: bool, o: int) -> bool:
     """rule reports a conflict  <=>  the specification's algorithm finds one (and it terminates)."""
     pool = QUICK_FIELDS if quick else list(range(len(FIELDS)))
     f1 = FIELDS[pool[forked(i1, 0, len(pool))]]
     f2 = FIELDS[pool[forked(i2, 0, len(pool))]]
     f3 = FIELDS[pool[forked(i3, 0, len(pool))]]
-    order = ORDERS3[forked(o, 0, 6)]
+    order = ORDERS3[o]
     text = structure(k, f1, f2, f3, order)
+    r = concrete(_agree, text)  # the document text is concrete once the holes are forked
+    assume(r is not None)
+    return verdict(r)
+
+
+def _agree(text: str):
     doc = parse(text)
     # keep to documents whose fields exist (FieldsOnCorrectType is a different rule)
     from graphql.validation import FieldsOnCorrectTypeRule
 
-    assume(len(validate(SCHEMA, doc, [FieldsOnCorrectTypeRule])) == 0)
+    if len(validate(SCHEMA, doc, [FieldsOnCorrectTypeRule])) != 0:
+        return None
     try:
         real = real_has_conflict(doc)
     except Exception:
-        return verdict(False)  # includes RecursionError on cyclic spreads
-    return verdict(real == spec_has_conflict(doc))
+        return False  # includes RecursionError on cyclic spreads
+    return real == spec_has_conflict(doc)
 
 
 # ---- unit obligations -----------------------------------------------------------------------------
@@ -310,7 +317,8 @@ def obligations(tier):
     th = tier == "thorough"
     obs = []
     for k in range(N_STRUCT):
-        obs.append(dict(fn="merge_agreement", cell=dict(k=k, quick=not th), budget_s=3600 if th else 150, expect_confirm=th))
+        for o in range(6):
+            obs.append(dict(fn="merge_agreement", cell=dict(k=k, quick=not th, o=o), budget_s=1800 if th else 120))
     obs.append(dict(fn="pair_set_model", cell={}, budget_s=900 if th else 120))
     obs.append(dict(fn="ordered_pair_set_model", cell={}, budget_s=900 if th else 120))
     obs.append(dict(fn="types_conflict_model", cell={}, budget_s=900 if th else 120))
@@ -320,10 +328,10 @@ def obligations(tier):
 def corpus():
     # pinned by tests/validation/test_overlapping_fields_can_be_merged.py style cases
     for k in range(N_STRUCT):
-        yield "merge_agreement", dict(k=k, quick=False), dict(i1=0, i2=0, i3=0, o=0)
-        yield "merge_agreement", dict(k=k, quick=False), dict(i1=0, i2=1, i3=2, o=3)
-        yield "merge_agreement", dict(k=k, quick=False), dict(i1=11, i2=12, i3=8, o=5)
-        yield "merge_agreement", dict(k=k, quick=False), dict(i1=15, i2=16, i3=5, o=1)
+        yield "merge_agreement", dict(k=k, quick=False, o=0), dict(i1=0, i2=0, i3=0)
+        yield "merge_agreement", dict(k=k, quick=False, o=3), dict(i1=0, i2=1, i3=2)
+        yield "merge_agreement", dict(k=k, quick=False, o=5), dict(i1=11, i2=12, i3=8)
+        yield "merge_agreement", dict(k=k, quick=False, o=1), dict(i1=15, i2=16, i3=5)
     yield "pair_set_model", {}, dict(a1=0, b1=1, e1=True, a2=1, b2=0, e2=False, qa=0, qb=1, qe=False)
     yield "ordered_pair_set_model", {}, dict(i1=0, b1=0, w1=True, i2=1, b2=0, w2=False, qi=0, qb=0, qw=False)
     yield "types_conflict_model", {}, dict(l1=0, w1=3, l2=0, w2=4)
